@@ -652,40 +652,62 @@ fn level(e: &Expression) -> u8 {
     }
 }
 
-pub fn render(e: &Expression, st: &Style, r: &mut Rng) -> Option<String> {
-    let sep = st.sep.clone();
-    let sub = |x: &Expression, need: u8, r: &mut Rng| -> Option<String> {
-        let s = render(x, st, r)?;
+/// Chunks: each is "(", ")", "!", ",", an operator word, or one whole primary with its arguments.
+pub fn render_chunks(e: &Expression, st: &Style, r: &mut Rng, out: &mut Vec<String>) -> Option<()> {
+    fn sub(x: &Expression, need: u8, st: &Style, r: &mut Rng, out: &mut Vec<String>) -> Option<()> {
         if level(x) < need {
-            Some(format!("({}{}{})", sep, s, sep))
+            out.push("(".into());
+            render_chunks(x, st, r, out)?;
+            out.push(")".into());
+            Some(())
         } else {
-            Some(s)
+            render_chunks(x, st, r, out)
         }
-    };
-    Some(match e {
-        Expression::Test(x) => test_text(x, st)?,
-        Expression::Action(a) => action_text(a, st)?,
+    }
+    match e {
+        Expression::Test(x) => out.push(test_text(x, st)?),
+        Expression::Action(a) => out.push(action_text(a, st)?),
         Expression::Global(_) | Expression::Positional(_) => return None,
         Expression::Operator(op) => match op.as_ref() {
-            Operator::Precedence(x) => format!("({}{}{})", sep, render(x, st, r)?, sep),
-            Operator::Not(x) => format!("!{}{}", sep, sub(x, 3, r)?),
+            Operator::Precedence(x) => {
+                out.push("(".into());
+                render_chunks(x, st, r, out)?;
+                out.push(")".into());
+            }
+            Operator::Not(x) => {
+                out.push("!".into());
+                sub(x, 3, st, r, out)?;
+            }
             Operator::And(a, b) => {
                 let wsel = if st.and_word == 3 { r.below(3) as u8 } else { st.and_word };
-                let l = sub(a, 2, r)?;
-                let rr = sub(b, 3, r)?;
+                sub(a, 2, st, r, out)?;
                 match wsel {
-                    0 => format!("{}{}{}", l, sep, rr),
-                    1 => format!("{}{}-a{}{}", l, sep, sep, rr),
-                    _ => format!("{}{}-and{}{}", l, sep, sep, rr),
+                    0 => {}
+                    1 => out.push("-a".into()),
+                    _ => out.push("-and".into()),
                 }
+                sub(b, 3, st, r, out)?;
             }
             Operator::Or(a, b) => {
                 let wsel = if st.or_word == 3 { r.below(2) as u8 } else { st.or_word };
-                format!("{}{}{}{}{}", sub(a, 1, r)?, sep, if wsel == 0 { "-o" } else { "-or" }, sep, sub(b, 2, r)?)
+                sub(a, 1, st, r, out)?;
+                out.push(if wsel == 0 { "-o" } else { "-or" }.into());
+                sub(b, 2, st, r, out)?;
             }
-            Operator::List(a, b) => format!("{}{},{}{}", sub(a, 0, r)?, sep, sep, sub(b, 1, r)?),
+            Operator::List(a, b) => {
+                sub(a, 0, st, r, out)?;
+                out.push(",".into());
+                sub(b, 1, st, r, out)?;
+            }
         },
-    })
+    }
+    Some(())
+}
+
+pub fn render(e: &Expression, st: &Style, r: &mut Rng) -> Option<String> {
+    let mut out = vec![];
+    render_chunks(e, st, r, &mut out)?;
+    Some(out.join(&st.sep))
 }
 
 pub fn render_default(e: &Expression) -> Option<String> {
